@@ -1360,17 +1360,32 @@ def parse(expr: str) -> ast.Expression:
     return parse_expression(expr)
 
 
+def _evaluate_checked(evaluator, tree: ast.AST) -> Any:
+    """Run an evaluator, reporting any evaluation failure as ExpressionError.
+
+    Expressions are user text: operands of the wrong type, empty sequences,
+    exhausted generators or bad regexes must make the expression inapplicable,
+    not abort the caller.
+    """
+    try:
+        return evaluator.evaluate(tree)
+    except ExpressionError:
+        raise
+    except Exception as e:
+        raise ExpressionError(f"Cannot evaluate expression: {type(e).__name__}: {e}")
+
+
 def evaluate(expr: str, ctx: ExpressionContext) -> Any:
     """Parse and evaluate an expression in the given context."""
     tree = parse_expression(expr)
     evaluator = ExpressionEvaluator(ctx)
-    return evaluator.evaluate(tree)
+    return _evaluate_checked(evaluator, tree)
 
 
 def evaluate_ast(tree: ast.Expression, ctx: ExpressionContext) -> Any:
     """Evaluate a pre-parsed AST in the given context."""
     evaluator = ExpressionEvaluator(ctx)
-    return evaluator.evaluate(tree)
+    return _evaluate_checked(evaluator, tree)
 
 
 # =============================================================================
@@ -1439,7 +1454,7 @@ def evaluate_transaction(
     tree = parse_expression(expr)
     ctx = TransactionContext.from_transaction(transaction, variables, data_sources)
     evaluator = TransactionEvaluator(ctx)
-    return evaluator.evaluate(tree)
+    return _evaluate_checked(evaluator, tree)
 
 
 def evaluate_transaction_ast(
@@ -1451,7 +1466,7 @@ def evaluate_transaction_ast(
     """Evaluate a pre-parsed AST against a transaction."""
     ctx = TransactionContext.from_transaction(transaction, variables, data_sources)
     evaluator = TransactionEvaluator(ctx)
-    return evaluator.evaluate(tree)
+    return _evaluate_checked(evaluator, tree)
 
 
 def matches_transaction(
